@@ -14,7 +14,7 @@ def main():
     prop, mdir = sys.argv[1], sys.argv[2].rstrip('/')
     checks = sys.argv[3:] or [prop]
     name = f"{prop}-{os.path.basename(os.path.dirname(mdir)).replace('wt_','') if False else ''}{os.path.basename(mdir)}".replace('--','-')
-    dst = f"/verif/seeded/{prop}-{os.path.basename(mdir)}"
+    dst = mdir if os.path.dirname(os.path.abspath(mdir)) == "/verif/seeded" else f"/verif/seeded/{prop}-{os.path.basename(mdir)}"
     if os.path.abspath(mdir) != os.path.abspath(dst):
         os.makedirs(dst, exist_ok=True)
         for f in ("patch.diff", "demo.py", "meta.json"):
